@@ -14,14 +14,15 @@ MO, TU, WE, TH, FR, SA, SU = range(7)
 MENUS = collections.OrderedDict([
     ('interval', [2, 3, 7, 12, 24, 60, 9, 90]),     # 9 / 90: 1 < gcd(interval, 24 or 60) < interval
     ('wkst', [1, 3, 6]),
-    ('bysetpos', [1, -1, (2, -2), 3]),
-    ('bymonth', [1, (2, 12), (4, 9), 2, (1, 2)]),             # (1, 2): neighbours, so an nth weekday that spills over lands in a listed month
+    ('bysetpos', [1, -1, (2, -2), 3, (366, -366)]),           # the ends of the RFC range
+    ('bymonth', [1, (2, 12), (4, 9), 2, (1, 2), (3, 5, 7), (6, 8, 10, 11)]),   # every month is named by some value;             # (1, 2): neighbours, so an nth weekday that spills over lands in a listed month
     ('bymonthday', [1, 31, -1, (29, -31), (15, -2)]),
     ('byyearday', [1, 366, -1, (60, -366), (100, 200, -100)]),
     ('byweekno', [1, 53, -1, (52, -53), 20, (2, -2)]),
     ('byweekday', [(TU, None), ((MO, None), (FR, None)), (TU, 1), (FR, -1), ((SU, 2), (SA, -2)),
                    ((MO, None), (FR, 1)), ((FR, -1), (TH, None)), (SU, 5), (SU, -5), (MO, 53), (WE, -53), TH,
-                   (TU, 10), (FR, -20)]),                       # ordinals written with a zero digit
+                   (TU, 10), (FR, -20),                        # ordinals written with a zero digit
+                   tuple((d, None) for d in range(7))]),       # every day: 365/366 candidates per year for BYSETPOS
     ('byeaster', [0, (-2, 1), 49, -100, 300]),
     ('byhour', [0, (6, 18), 23]),
     ('byminute', [0, (15, 45), 59, (0, 30), (12, 19, 36, 43)]),   # 12/36 (19/43 from minute 7) need gcd(interval, 60), not gcd(interval, 24)
